@@ -451,7 +451,9 @@ class FcpV2Transformer(Transformer):
     @v_args(tree=True)  # type: ignore
     def mod_expr(self, tree: ParseTree) -> Result[Nil, FcpError]:
         """Parse a mod_expr node of the fcp AST."""
-        filename = self.path / (".".join(tree.children).replace(".", "/") + ".fcp")
+        filename = (
+            self.path / (".".join(tree.children).replace(".", "/") + ".fcp")
+        ).resolve()
 
         try:
             with open(filename) as f:
@@ -460,14 +462,14 @@ class FcpV2Transformer(Transformer):
             return error(f"File not found: {pathlib.Path(e.filename).name}")
 
         try:
-            self.error_logger.add_source(filename.name, source)
+            self.error_logger.add_source(str(filename), source)
             fcp_ast = fcp_parser.parse(source)
         except (UnexpectedCharacters, UnexpectedEOF) as e:
             return _lark_error(self.error_logger, filename, source, e)
 
         try:
             fcp = FcpV2Transformer(
-                pathlib.Path(filename).resolve(),
+                filename,
                 self.parser_context,
                 self.filesystem_proxy,
                 self.error_logger,
@@ -604,7 +606,7 @@ def _get_fcp(
     logger: Logger,
 ) -> Result[v2.FcpV2, FcpError]:
     source = filesystem_proxy.read(filename)
-    logger.add_source(filename.name, source)
+    logger.add_source(str(filename), source)
     try:
         fcp_ast = fcp_parser.parse(source)
     except (UnexpectedCharacters, UnexpectedEOF) as e:
